@@ -17,7 +17,13 @@ META = {
             "difference equations and coincide step by step on every history on which no limit is active (coupling invariant "
             "out_inc = kp*e + sum + kd*var), zero = freshly initialised (state-independent, idempotent, same future); single "
             "neuron: output within limits, the normalising denominator vanishes iff all updated weights are zero and the "
-            "quotient reaches no other state field (A_SAT maps the NaN to outmin). Tie: bit-exact binary64 run vs the C.",
+            "quotient reaches no other state field (A_SAT maps the NaN to outmin). Rounded instance Rnd_ops rnd (every + - * / "
+            "followed by rnd, comparisons exact, overflow outside the model; C12/PidRound.v): output within the limits after "
+            "every step of every mixed-mode history and for the neuron holds verbatim for EVERY rnd, and for monotone rnd with "
+            "rnd 0=0, rnd(-x)=-rnd x (binary64 round-to-nearest-even by Flocq) and format-valued sum/limits the positional "
+            "integrator never moves further beyond a clamp (verbatim) and over every history stays within "
+            "[rnd(summin-rnd(ki*E)), rnd(summax+rnd(ki*E))], i.e. overshoots by at most one rounded increment. "
+            "Tie: bit-exact binary64 run vs the C.",
     "note": "Trusted: Coq kernel/vm_compute with primitive floats; real-number axioms listed by Print Assumptions; the 'same "
             "term, different NumOps instance' argument; hand transcription coq/C12/PidDefs.v validated bit for bit on the "
             "generated histories only. 'State stays finite' is proved as definedness over R plus the NaN-to-outmin behaviour of "
